@@ -190,7 +190,7 @@ def seq_cases(rng, nseq, length, base_id):
     subnets the oracle uses are the generated ones, never read back from the processor"""
     out = []
     for k in range(nseq):
-        transport = rng.choice([1, 4])
+        transport = (1, 4)[k % 2] if k < 2 else rng.choice([1, 4])   # both transports in every run, whatever the seed (generator self-test)
         tname = "Min_Transport" if transport == 1 else "Prefix_Transport"
         cidrs = rng.sample(["10.1.0.0/24", "10.2.3.0/28", "172.16.5.6/31", "198.51.100.128/25", "100.64.0.0/10", "255.255.255.0/24"], rng.choice([1, 2, 3]))
         subs = [{"cidr": c, "weight": rng.choice([1, 2, 0.5]), "port": rng.choice([443, 80, 1111]), "transport": tname, "prefix_id": rng.choice([1, 2, 5])}
